@@ -1130,8 +1130,10 @@ def bswap(info, a):
     return e
 
 def cmps(info, a, b):
+    # a is the es:[edi] operand, b the ds:[esi] operand; the flags are those
+    # of [esi] - [edi] (first source operand minus second source operand)
     e= []
-    e+=l_cmp(info, a, b)
+    e+=l_cmp(info, b, a)
     off = a.get_size()/8
     e.append(ExprAff(a.arg, ExprCond(df,
                                      ExprOp('-', a.arg, ExprInt_from(a.arg, off)),
